@@ -408,6 +408,62 @@ def run_multi(case, ctx):
         ctx.nontrivial({"b": "multi", "o": kind, "cap": cap, "a": nag, "ops": [o[0] for o in case["ops"]]})
 
 
+
+# ----------------------------------------------------------------------------
+# 1-step buffer fed through the n-step buffer (the pairing train_off_policy uses for Rainbow)
+# ----------------------------------------------------------------------------
+
+def run_paired(case, ctx):
+    """MultiStepReplayBuffer.add() hands back the oldest raw transition of its window, and the training loop stores that value in the
+    ordinary ReplayBuffer.  The 1-step buffer filled this way is still a C09 buffer: it must hold exactly the most recent transitions
+    handed to it, each intact, and a transition handed out by add() must not be altered by later additions."""
+    from agilerl.components.replay_buffer import MultiStepReplayBuffer, ReplayBuffer
+
+    kind, cap, n, E = case["obs"], case["cap"], case["n"], case["width"]
+    nbuf = MultiStepReplayBuffer(max_size=cap, n_step=n, gamma=0.5)
+    mem = ReplayBuffer(max_size=cap)
+    model, handed = [], []
+    next_id, folded = 1, False
+    for step in range(case["steps"]):
+        ids = list(range(next_id, next_id + 2 * E, 2)) if case["parity"] == 2 else list(range(next_id, next_id + E))
+        next_id = ids[-1] + (2 if case["parity"] == 2 else 1)
+        td = sa_transition(kind, ids, E > 1 or bool(case["vect"]))
+        with ctx.promised("C09/paired/add", obs=kind, n=n):
+            one = nbuf.add(td)
+            if one is not None:
+                first_ids = [i for i, _ in sa_decode_rows(kind, one, E)]
+                mem.add(one)
+                handed.append((one, _snapshot(one)))
+                model.extend(first_ids)
+        if one is not None:
+            rows = sa_decode_rows(kind, one, E)
+            bad = [(r, b) for r, (_, b) in enumerate(rows) if b]
+            ctx.check(not bad, "C09/paired/returned_row_mixed",
+                      "the transition add() hands to the 1-step buffer mixes fields of different transitions", problems=bad[:3], step=step)
+            if any(i is not None and i % 2 == 0 for i, _ in rows):
+                folded = True  # window started with a non-terminal transition: the n-step fold went past it
+        m = min(cap, len(model))
+        ctx.check(len(mem) == m, "C09/paired/len", "len(1-step buffer) != min(capacity, rows handed over)", got=len(mem), want=m)
+        if m > 0:
+            rows = sa_decode_rows(kind, mem.storage[:m], m)
+            bad = [(r, b) for r, (_, b) in enumerate(rows) if b]
+            ctx.check(not bad, "C09/paired/stored_row_mixed", "a row of the 1-step buffer mixes fields of different transitions",
+                      problems=bad[:3], step=step)
+            got = sorted(i for i, _ in rows if i is not None)
+            want = sorted(x for x in model[-cap:] if x is not None)
+            ctx.check(got == want or bool(bad), "C09/paired/contents",
+                      "1-step buffer does not hold exactly the most recent transitions handed over", got=got, want=want)
+        for live, snap in handed:
+            ctx.check(_same_td(live, snap), "C09/paired/handed_out_transition_changed",
+                      "a transition handed out by add() was altered by a later addition", step=step)
+    ctx.label("buffer=paired")
+    ctx.label(f"obs={kind}")
+    if len(model) > cap:
+        ctx.label("wrapped")
+    if folded and len(model) >= E:
+        ctx.label("paired:fold-past-first")
+        ctx.nontrivial({"b": "paired", "o": kind, "cap": cap, "n": n, "E": E, "steps": case["steps"], "p": case["parity"]})
+
 # ----------------------------------------------------------------------------
 
 def _ops(max_ops, with_clear):
@@ -443,6 +499,21 @@ def multi_strategy(draw, tier):
         "korder": draw(st.sampled_from([0, 0, 1, 2])),
     }
 
+@st.composite
+def paired_strategy(draw, tier):
+    big = tier == "thorough"
+    width = draw(st.integers(1, 4))
+    return {
+        "obs": draw(st.sampled_from(["scalar", "vector", "image", "dict"])),
+        "width": width,
+        "vect": draw(st.integers(0, 1)),
+        "n": draw(st.integers(2, 5)),
+        "cap": width * draw(st.integers(1, 12 if big else 6)),
+        "steps": draw(st.integers(1, 60 if big else 24)),
+        # ids advance by 1 (done flag = id % 2 alternates: many windows cut) or by 2 (all even / non-terminal: every window is full)
+        "parity": draw(st.sampled_from([1, 2])),
+    }
+
 
 PROPERTY = Property(
     id="C09",
@@ -455,10 +526,12 @@ PROPERTY = Property(
                    examples={"quick": 800, "thorough": 6000}, shards={"quick": 8, "thorough": 16}),
         Obligation("multi_agent_buffer", run_multi, strategy=multi_strategy,
                    examples={"quick": 500, "thorough": 5000}, shards={"quick": 8, "thorough": 16}),
+        Obligation("paired_n_step_buffer", run_paired, strategy=paired_strategy,
+                   examples={"quick": 400, "thorough": 4000}, shards={"quick": 8, "thorough": 16}),
     ],
     assumptions=["transitions are built with agilerl.components.data.Transition exactly as the training loops do",
                  "the multi-agent buffer is scanned through sample(len) (a permutation of its content)"],
     wanted_labels=["buffer=uniform", "buffer=per", "buffer=multi", "multi:field-dicts-keyed-in-another-order", "wrapped", "cleared", "sample-after-clear",
-                   "obs=dict", "obs=tuple", "obs=image", "multi-vectorised"],
+                   "obs=dict", "obs=tuple", "obs=image", "multi-vectorised", "buffer=paired", "paired:fold-past-first"],
     fuzz=['single_agent_buffer', 'multi_agent_buffer'],
 )
